@@ -330,6 +330,19 @@ CARRIERS: List[Carrier] = [
     Carrier('cases', 'match v:\n    case 1:  # c1\n        pass\n    case 2: pass\n    # pre 3\n    case _:\n        pass\n', L0, 'cases',
             'match v:\n    {}\n', ['case 1:\n    pass', 'case 2: pass', 'case _:\n    pass'], ['case 7:\n    pass', 'case [8]:\n    pass'],
             sep='\n', tsep='\n    ', tindent='    '),
+    # the REAL list fields of a Call whose source interleaves them: a starred positional after a keyword, a keyword before a starred
+    Carrier('callreal_args', 'r = f(a, x=1, *b)  # call\n', V0, 'args', 'r = f({}, x=1)\n', ['a', '*b'], ['p', '*q'], tmpl0='r = f(x=1)\n', refuse_re=r"try the '_args' field|at this location \(after keywords\)"),
+    Carrier('callreal_kws', 'r = f(x=1, *b, y=2)  # call\n', V0, 'keywords', 'r = f(*b, {})\n', ['x=1', 'y=2'], ['z=3', '**q'], tmpl0='r = f(*b)\n', refuse_re=r"try the '_args' field"),
+    # handlers inside an indented block with comments above them; names of a parenthesised from-import with comments between; type parameters with comments
+    Carrier('handlers_ind', 'if 1:\n    try:\n        pass\n    except A: pass\n    # pre b\n    except B: pass\n    except C: pass\n', [('body', 0), ('body', 0)], 'handlers',
+            'if 1:\n    try:\n        pass\n    {}\n', ['except A: pass', 'except B: pass', 'except C: pass'], ['except P:\n    pass', 'except Q as q:\n    pass'],
+            sep='\n', tsep='\n    ', tindent='    '),
+    Carrier('fromimp_c', 'from m import (a, # ca\n  b as x, # cb\n  c)\n', L0, 'names', 'from m import ({})\n', ['a', 'b as x', 'c'], ['p', 'q as s']),
+    Carrier('typeparams_c', 'def f[T, # ca\n  *U, # cb\n  **V](): pass\n', L0, 'type_params', 'def f[{}](): pass\n', ['T', '*U', '**V'], ['P', 'Q: int'], tmpl0='def f(): pass\n'),
+    # a block at the very end of a file without a final newline
+    Carrier('ifbody_eof', 'if 1:\n a\n b', L0, 'body', 'if 1:\n {}', ['a', 'b'], ['p = 5', 'q(6)'], sep='\n', tsep='\n '),
+    Carrier('orelse_cmt', 'if x:\n    a\n    # about a\nelse:\n    b\nc\n', L0, 'orelse', 'if x:\n    a\nelse:\n    {}\nc\n', ['b'], ['if p:\n    q = 1', 'r = 2'],
+            sep='\n', tsep='\n    ', tindent='    ', tmpl0='if x:\n    a\nc\n'),
     # replacements with the SAME UTF-8 length as what they replace but another character count (é -> pq), and nodes after them on the line
     Carrier('uni_targets', 'é = ñ = [x, (y), ü]  # ç\n', L0, 'targets', '{} = [x, (y), ü]\n', ['é', 'ñ'], ['pq', 'rs'], sep=' = ', code_suffix=' =', tags=('utf8',)),
     Carrier('uni_samebytes', 'w = [é, "ñ", (b), ü]  # ç\n', V0, 'elts', 'w = [{}]\n', ['é', '"ñ"', '(b)', 'ü'], ['pq', 'r.s'], tags=('utf8',)),
